@@ -79,11 +79,10 @@ _Static_assert(sizeof(src_procs_map) / sizeof(*src_procs_map) == M_SRC_TYPE_END,
 static void src_priv_dtor(void *data) {
     ev_src_t *t = (ev_src_t *)data;
 
-    /* If a fd is deregistered for a RUNNING module, stop polling on it */
-    if (m_mod_is(t->mod, M_MOD_RUNNING)) {
-        M_MOD_CTX(t->mod);
-        poll_set_new_evt(&c->ppriv, t, RM);
-    }
+    /*
+     * NOTE: the src is no more polled here, see mod_src_dtor();
+     * do not access t->mod: the src may outlive its module.
+     */
 
     /* Properly manage autoclose flag */
     if (t->flags & M_SRC_FD_AUTOCLOSE) {
@@ -114,6 +113,21 @@ static void src_priv_dtor(void *data) {
     if (t->flags & M_SRC_AUTOFREE) {
         memhook._free((void *)t->userptr);
     }
+}
+
+/*
+ * Dtor for the elements of a module's srcs: called as soon as a src leaves its module,
+ * ie: it was deregistered, it was a oneshot src that fired, or the module is being stopped.
+ * Stop polling on it right now, closing any internal fd: an event holds a reference on its src,
+ * thus the src outlives its registration (and even its module, and ctx)
+ * whenever the user keeps the event, eg: through m_mem_ref() or m_mod_stash().
+ */
+static void mod_src_dtor(void *data) {
+    ev_src_t *src = (ev_src_t *)data;
+    M_MOD_CTX(src->mod);
+
+    poll_set_new_evt(&c->ppriv, src, RM);
+    m_mem_unref(src);
 }
 
 static void *task_thread(void *data) {
@@ -344,7 +358,7 @@ static ev_src_t *process_thresh(ev_src_t *this, m_ctx_t *c, int idx, evt_priv_t 
 /** Private API **/
 
 int init_src(m_mod_t *mod, m_src_types t) {
-    mod->srcs[t] = m_bst_new(src_cmp_map[t], mem_dtor);
+    mod->srcs[t] = m_bst_new(src_cmp_map[t], mod_src_dtor);
     if (!mod->srcs[t]) {
         return -ENOMEM;
     }
